@@ -214,6 +214,7 @@ OpInsert ==
   LET id == E.res.id
       want == RowVals(E.order, E.vals) IN
   /\ Chk("C02", "insert-returned-old-id", id \notin issued[E.w])
+  /\ Chk("C01", "new-entity-got-the-identifier-of-an-earlier-entity", id \notin issued[E.w])
   /\ Chk("C01", "insert-live-set", DOMAIN Post = (DOMAIN Pre) \cup {id})
   /\ OthersSame({id})
   /\ Chk("C01", "insert-components", id \in DOMAIN Post /\ ValOnly(Post[id]) = want)
@@ -227,6 +228,7 @@ OpExtend ==
   /\ Chk("C01", "extend-one-id-per-row", Len(ids) = Len(rows))
   /\ Chk("C02", "extend-ids-distinct", Cardinality(Rng(ids)) = Len(ids))
   /\ Chk("C02", "extend-returned-old-id", Rng(ids) \cap issued[E.w] = {})
+  /\ Chk("C01", "new-entity-got-the-identifier-of-an-earlier-entity", Rng(ids) \cap issued[E.w] = {})
   /\ Chk("C01", "extend-live-set", DOMAIN Post = (DOMAIN Pre) \cup Rng(ids))
   /\ OthersSame(Rng(ids))
   /\ Chk("C01", "extend-row-order",
@@ -320,6 +322,15 @@ OpNoChange ==   \* reserve, shrink_to_fit
 
 SameValuesFreshTokens(src, dst, prop) ==
   /\ Chk(prop, "copy-content", Vals(Ents(PostWs[dst])) = Vals(Ents(PreWs[src])))
+  \* the copy accepts exactly the identifiers the source accepts, and they land on the same entities
+  /\ Chk(prop, "copy-identifier-resolution",
+         PostWs[dst].live =>
+            \A id \in (DOMAIN PostWs[dst].probes) \cap (DOMAIN PreWs[src].probes) :
+               /\ PostWs[dst].probes[id].con = PreWs[src].probes[id].con
+               /\ PostWs[dst].probes[id].ent = PreWs[src].probes[id].ent
+               /\ PostWs[dst].probes[id].ee = PreWs[src].probes[id].ee)
+  /\ Chk(prop, "copy-structure-broken",
+         PostWs[dst].live => (StoreInvHolds(PostWs[dst].dump) \/ ~StoreInvHolds(PreWs[src].dump)))
   /\ Chk(prop, "copy-resources", ResVals(PostWs[dst]) = ResVals(PreWs[src]))
   /\ Chk("C15", "copy-lost-or-altered-a-resource", ResVals(PostWs[dst]) = ResVals(PreWs[src]))
   /\ Chk(prop, "copy-shares-values", TokSet([w \in Worlds |-> IF w = dst THEN PostWs[w] ELSE DeadW])
